@@ -614,7 +614,7 @@ func (s *State) Assume(c *Term) {
 
 // mergeStates merges b into a (ite on a's delta condition). Both must share a
 // common PC prefix of length `base`.
-func mergeStates(a, b *State, base int) (*State, bool) {
+func mergeStates(a, b *State, base int, at *ssa.BasicBlock) (*State, bool) {
 	if len(a.Frames) != len(b.Frames) {
 		return nil, false
 	}
@@ -667,9 +667,21 @@ func mergeStates(a, b *State, base int) (*State, bool) {
 			}
 			m, ok := mergeVal(ca, va, vb)
 			if !ok {
-				// differs and cannot be merged: values defined inside the branch region do not
-				// dominate the join and are dead there; drop the binding (a later use fails loudly).
-				continue
+				// differs and cannot be merged. A value defined inside the branch region does not dominate the
+				// join and is dead there: drop the binding. A value whose definition dominates the join may
+				// still be used: the states cannot be merged.
+				if i != len(a.Frames)-1 || at == nil {
+					return nil, false
+				}
+				if ins, isIns := k.(ssa.Instruction); isIns && ins.Block() != nil && ins.Block() != at && !ins.Block().Dominates(at) {
+					continue
+				}
+				if _, isPhi := k.(*ssa.Phi); isPhi {
+					if k.(*ssa.Phi).Block() == at {
+						return nil, false
+					}
+				}
+				return nil, false
 			}
 			nf.Env[k] = m
 		}
